@@ -74,7 +74,7 @@ keeps the `WinAnsiEncoding` `NewFont` preset. (Observable only for a Type0 font 
 ToUnicode whose `/Encoding` is the name of a simple-font encoding.) -/
 def parseFont (res : Reader.Res) (o : Obj) : Option FontDecode.Font :=
   match Reader.parseFont res o with
-  | some f => if isType0 res o then some ⟨f.toUnicode, Reader.kWinAnsiEncoding⟩ else some f
+  | some f => if isType0 res o then some ⟨f.toUnicode, Reader.kWinAnsiEncoding, []⟩ else some f
   | none => none
 
 /-- `e.fonts[name]` after `RegisterFontsFromResources fonts` on an empty table: the font stored
